@@ -29,6 +29,7 @@ import (
 	"os"
 	"slices"
 	"strconv"
+	"strings"
 	"sync"
 	"sync/atomic"
 	"syscall"
@@ -87,6 +88,12 @@ func reuseUnixSocket(network, addr string) (any, error) {
 	// unlink it before you bind to it -- this is often crucial if the last program using
 	// it was killed forcefully without a chance to clean up the socket, but there is a
 	// race, as the comment in net.UnixListener.close() explains... oh well, I guess?
+	// ...unless the file is the socket of a listener of ours that was bound under
+	// another unix network type (unix, unixgram, unixpacket share the file namespace):
+	// removing it would cut that listener off from its clients
+	if otherKey, inUse := unixSocketPathInUse(addr, socketKey); inUse {
+		return nil, fmt.Errorf("socket file %s is in use by %s", addr, otherKey)
+	}
 	if err := syscall.Unlink(addr); err != nil && !errors.Is(err, fs.ErrNotExist) {
 		return nil, err
 	}
@@ -301,9 +308,24 @@ func unlinkUnixSocket(mapKey, name string) {
 		_ = kept.UnixConn.Close()
 	}
 	delete(unixSockets, mapKey)
+	if _, inUse := unixSocketPathInUse(name, mapKey); inUse {
+		return // the path now names another socket of ours
+	}
 	if name != "" && name[0] != '@' {
 		_ = syscall.Unlink(name)
 	}
+}
+
+// unixSocketPathInUse reports whether a unix socket other than the one with
+// key exceptKey is open at the given path (keys are network + "/" + path).
+// unixSocketsMu must be held.
+func unixSocketPathInUse(path, exceptKey string) (string, bool) {
+	for key := range unixSockets {
+		if _, keyPath, ok := strings.Cut(key, "/"); ok && keyPath == path && key != exceptKey {
+			return key, true
+		}
+	}
+	return "", false
 }
 
 func (uc *unixConn) Unwrap() net.PacketConn {
